@@ -108,16 +108,25 @@ func ZZ_C20_mixed() {
 		S[ht] = x
 		nd.Assert(h.Height() == uint32(ht), "height_after_commit")
 	}
-	retained := capc
-	if retained > H {
-		retained = H
+	// Heights still held (ghost of the retention rule stated in Commit: when
+	// `capacity` distinct heights are already held, a commit first drops the
+	// oldest height — also when it adds a second batch to the newest height).
+	var held []int
+	for ht := 1; ht <= H; ht++ {
+		n := 1
+		if ht == dup {
+			n = 2
+		}
+		for b := 0; b < n; b++ {
+			if len(held) >= capc {
+				held = held[1:]
+			}
+			if len(held) == 0 || held[len(held)-1] != ht {
+				held = append(held, ht)
+			}
+		}
 	}
-	low := H - retained
-	if dup != 0 && low < H-1 {
-		// a second batch for an already held height still counts against the
-		// capacity when it is committed: the window may be one height shorter
-		low++
-	}
+	low := held[0] - 1 // the lowest height that can still be reached
 	at := H
 	if nd.Choose("seekFirst", 2) == 1 {
 		t := low + nd.Choose("seek", H-low+1)
